@@ -24,7 +24,8 @@ What the engine does, independent of the property:
     defaults from the signature, fresh prefix for the helper's locals, object state shared; the body
     must be straight-line code, loops and non-returning ifs, optionally ending in `return <expr>`,
     also a tuple); guard clauses (`if c: return ..` + rest == if/else), `if c: continue` in a loop,
-    bare `return` in a state-changing method; conditional expression vs if/else assignment;
+    bare `return` in a state-changing method; `a and b` / `a or b` with an `is None` conjunct as
+    nested ifs; conditional expression vs if/else assignment;
     temporaries introduced or inlined; loops vs comprehensions / generator expressions;
     `for x in (<constants>)` is unrolled (a dispatch loop is an if-chain); `getattr(obj, <constant
     name>)(..)` is `obj.<name>(..)`; names bound to boolean / string constants are propagated
@@ -117,6 +118,13 @@ class V:
 
 class NeedDup(Exception):
     pass
+
+
+class NeedNest(Unsupported):
+    """a condition `a and b` / `a or b` with an `is None` conjunct: only as nested ifs"""
+
+    def __init__(self):
+        Unsupported.__init__(self, "`is None` test inside and/or, outside an if statement")
 
 
 class _RenameLocals(ast.NodeTransformer):
@@ -403,7 +411,14 @@ class Engine:
                 self.loop(st, env, W)
                 continue
             if isinstance(st, ast.If):
-                c = self.cond(st.test, env, W)
+                try:
+                    c = self.cond(st.test, env, W)
+                except NeedNest:
+                    nested = self.nest_boolop(st)
+                    if nested is None:
+                        raise
+                    self.seq([nested], env, W)
+                    continue
                 if c["k"] == "static":
                     self.seq(st.body if c["v"] else st.orelse, env, W)
                     continue
@@ -508,7 +523,7 @@ class Engine:
                         return {"k": "static", "v": p["v"]}
                     continue
                 if p["k"] != "bool":
-                    fail("`is None` test inside and/or", t)
+                    raise NeedNest()              # statement level: nested ifs (see nest_boolop)
                 terms.append(p["t"])
             if not terms:
                 return {"k": "static", "v": is_and}
@@ -651,9 +666,35 @@ class Engine:
                     return True
         return False
 
+    @staticmethod
+    def nest_boolop(s):
+        """`if a and b: B else: E` == `if a: (if b: B else: E) else: E`;
+        `if a or b: B else: E` == `if a: B else: (if b: B else: E)` (also under `not`: De Morgan)"""
+        t = s.test
+        neg = False
+        if isinstance(t, ast.UnaryOp) and isinstance(t.op, ast.Not) and isinstance(t.operand, ast.BoolOp):
+            t, neg = t.operand, True
+        if not isinstance(t, ast.BoolOp):
+            return None
+        body, orelse = (s.orelse, s.body) if neg else (s.body, s.orelse)
+        body = body or [ast.Pass()]
+        first, others = t.values[0], t.values[1:]
+        tail = others[0] if len(others) == 1 else ast.BoolOp(op=t.op, values=others)
+        if isinstance(t.op, ast.And):
+            inner = ast.copy_location(ast.If(test=tail, body=body, orelse=orelse), s)
+            return ast.copy_location(ast.If(test=first, body=[inner], orelse=orelse), s)
+        inner = ast.copy_location(ast.If(test=tail, body=body, orelse=orelse), s)
+        return ast.copy_location(ast.If(test=first, body=body, orelse=[inner]), s)
+
     def if_stmt(self, s, rest, env, fin):
         W = []
-        c = self.cond(s.test, env, W)
+        try:
+            c = self.cond(s.test, env, W)
+        except NeedNest:
+            nested = self.nest_boolop(s)
+            if nested is None:
+                raise
+            return self.block([nested] + rest, env, fin)
         if c["k"] == "static":
             return nest(W, self.block((s.body if c["v"] else s.orelse) + rest, env, fin))
         env_t, env_e = dict(env), dict(env)
